@@ -287,6 +287,12 @@ def check(ctx):
     # the handle a despawn reaction parks in its tracker is taken out again whatever happens to the command: every path of
     # the runner has exactly one disposition (run / postpone / abort), each of which runs the command's setup and cleanup
     import c02 as _c02
+    # 'exists as long as a despawn reaction for it is pending': the handle travels in the pending list of the despawn tracker,
+    # which keeps one entry per prepared reaction (append on prepare, first-match claim on start; shared with C03.e / C11)
+    import c03 as _c03, c11 as _c11
+    nh = core.adopt(ctx, _c03, lambda o: o["rule"] in ("C03.e", "C03.b") and "DespawnAccessTracker" in o["key"], "C07.e")
+    nh += core.adopt(ctx, _c11, lambda o: o["rule"] == "C11.prepared" and "DespawnAccessTracker" in o["key"], "C07.e")
+    ctx.floor("C07.e", nh, 3, "shared pending-list obligations of the despawn tracker (C03.b/e, C11.prepared)")
     n2 = core.adopt(ctx, _c02, lambda o: o["rule"] == "C02.a" and any(k in o["key"] for k in ("single-disposition", "dispositions=", "abort-only")), "C07.e")
     ctx.floor("C07.e", n2, 2, "shared disposition obligations of the runner (C02.a)")
 
